@@ -639,3 +639,11 @@ def r_finalise(ctx):
 def _fallible(x):
     # the call's result is a Result that is propagated (a `?` decision on it follows)
     return True
+
+
+def r_finalise_async(ctx):
+    """the async half of R-FINALISE: async-compression encoders only terminate their stream on close(), so every user must close after its last write
+    (necessary for the written section to be a complete, decodable stream — C01/C02/C05)"""
+    if "async" not in ctx.facts.features:
+        return [Ob("R-FINALISE", "<crate>", "async feature off", True, "config without the async feature: no async encoders")]
+    return [o for o in r_finalise(ctx) if o.site.startswith("async encoder") or o.fn.startswith("<")]
